@@ -39,9 +39,11 @@ type Episode struct {
 	Nontrivial bool
 	Infra      string // non-empty: infrastructure trouble (step cap, leak), never a violation
 	Sample     interface{}
-	States     []string // distinct abstract states visited (property specific)
-	t0         time.Time
-	cleanups   []func()
+	// LeakedGoroutines: goroutines hertz started in this episode that never end (FS cache cleaner)
+	LeakedGoroutines int
+	States           []string // distinct abstract states visited (property specific)
+	t0               time.Time
+	cleanups         []func()
 }
 
 func NewEpisode(prop string, seed uint64, tape *Tape) *Episode {
